@@ -84,30 +84,31 @@ pub fn addr_of(name: &str) -> String {
 
 /// boundary-biased u128 amount relative to a reference value (e.g. current balance)
 pub fn amount_near(rng: &mut Rng, reference: u128) -> u128 {
-    match rng.below(16) {
+    // about two thirds of the draws are affordable (<= reference), the rest sit on and beyond boundaries
+    match rng.below(24) {
         0 => 0,
         1 => 1,
-        2 => reference,
-        3 => reference.saturating_add(1),
-        4 => reference.saturating_sub(1),
-        5 => reference / 2,
-        6 => u128::MAX,
-        7 => (u64::MAX as u128) + 1,
-        8 => u64::MAX as u128,
-        9 => reference.saturating_mul(2),
-        10 | 11 => {
+        2 | 3 => reference,
+        4 => reference.saturating_add(1),
+        5 => reference.saturating_sub(1),
+        6 | 7 => reference / 2,
+        8 => u128::MAX,
+        9 => (u64::MAX as u128) + 1,
+        10 => u64::MAX as u128,
+        11 => reference.saturating_mul(2),
+        12..=15 => {
             if reference == 0 {
                 rng.below(100) as u128
             } else {
                 rng.u128() % reference.saturating_add(1)
             }
         }
-        12 => rng.below(10) as u128,
+        16 => rng.below(10) as u128,
         _ => {
             if reference == 0 {
                 rng.below(1000) as u128
             } else {
-                (reference / 10).max(1) * (rng.below(10) as u128 + 1) / 2
+                ((reference / 10).max(1) * (rng.below(10) as u128 + 1) / 2).min(reference)
             }
         }
     }
